@@ -69,6 +69,8 @@ func (v *visitor) visit(node ast.Node) reflect.Type {
 		t = v.BoolNode(n)
 	case *ast.StringNode:
 		t = v.StringNode(n)
+	case *ast.ConstantNode:
+		t = reflect.TypeOf(n.Value)
 	case *ast.UnaryNode:
 		t = v.UnaryNode(n)
 	case *ast.BinaryNode:
